@@ -410,3 +410,66 @@ Proof.
   destruct (builtin_params f builtin_table) eqn:Eb; [discriminate|]. split; [reflexivity|apply (simpleB_b_sound rt mt fuel); exact Hst].
 Qed.
 End CheckTop.
+
+(* ---------- the routine table the program's own definitions give ---------- *)
+Lemma collect_atom mt st : simple_atom mt st = true -> forall fuel acc, collect_stmt fuel st acc = acc.
+Proof. intros H fuel acc. destruct fuel as [|fuel]; [reflexivity|]. destruct st; cbn [simple_atom] in H; try discriminate; reflexivity. Qed.
+
+Lemma collect_simple mt :
+  (forall st, Simple mt st -> forall fuel acc, fst (collect_stmt fuel st acc) = fst acc) /\
+  (forall l, SimpleL mt l -> forall fuel acc, fst (fold_left (fun a st => collect_stmt fuel st a) l acc) = fst acc).
+Proof.
+  apply Simple_mutind.
+  - intros st H fuel acc. rewrite (collect_atom mt st H). reflexivity.
+  - intros c a _ _ IHa fuel acc. destruct fuel as [|fuel]; [reflexivity|]. exact (IHa fuel acc).
+  - intros c a b _ _ IHa _ IHb fuel acc. destruct fuel as [|fuel]; [reflexivity|]. cbn [collect_stmt]. rewrite IHb. exact (IHa fuel acc).
+  - intros l _ IH fuel acc. destruct fuel as [|fuel]; [reflexivity|]. exact (IH fuel acc).
+  - intros c a _ _ IHa fuel acc. destruct fuel as [|fuel]; [reflexivity|]. exact (IHa fuel acc).
+  - intros n a _ _ IHa fuel acc. destruct fuel as [|fuel]; [reflexivity|]. exact (IHa fuel acc).
+  - intros fuel acc. reflexivity.
+  - intros st r _ IHst _ IHr fuel acc. cbn [fold_left]. rewrite IHr. exact (IHst fuel acc).
+Qed.
+
+Lemma collect_simpleB rt mt :
+  (forall inl inr st, SimpleB rt mt inl inr st -> forall fuel acc, fst (collect_stmt fuel st acc) = fst acc) /\
+  (forall inl inr l, SimpleBL rt mt inl inr l -> forall fuel acc, fst (fold_left (fun a st => collect_stmt fuel st a) l acc) = fst acc).
+Proof.
+  apply SimpleB_mutind.
+  - intros inl inr st H. exact (proj1 (collect_simple mt) st H).
+  - intros inr fuel acc. destruct fuel; reflexivity.
+  - intros inl v _ fuel acc. destruct fuel; reflexivity.
+  - intros inl fuel acc. destruct fuel; reflexivity.
+  - intros inl inr f args b d _ _ _ _ _ fuel acc. destruct fuel; reflexivity.
+  - intros inl inr c a _ _ IHa fuel acc. destruct fuel as [|fuel]; [reflexivity|]. exact (IHa fuel acc).
+  - intros inl inr c a b _ _ IHa _ IHb fuel acc. destruct fuel as [|fuel]; [reflexivity|]. cbn [collect_stmt]. rewrite IHb. exact (IHa fuel acc).
+  - intros inl inr l _ IH fuel acc. destruct fuel as [|fuel]; [reflexivity|]. exact (IH fuel acc).
+  - intros inl inr c a _ _ IHa fuel acc. destruct fuel as [|fuel]; [reflexivity|]. exact (IHa fuel acc).
+  - intros inl inr n a _ _ IHa fuel acc. destruct fuel as [|fuel]; [reflexivity|]. exact (IHa fuel acc).
+  - intros inl inr a _ IHa fuel acc. destruct fuel as [|fuel]; [reflexivity|]. exact (IHa fuel acc).
+  - intros inl inr fuel acc. reflexivity.
+  - intros inl inr st r _ IHst _ IHr fuel acc. cbn [fold_left]. rewrite IHr. exact (IHst fuel acc).
+Qed.
+
+Lemma collect_define f g ps body acc : collect_stmt (S f) (SDefineRoutine g ps body) acc = (fst acc ++ [(g, mkRdef ps body)], snd acc).
+Proof. reflexivity. Qed.
+
+Lemma collect_defs rt mt p f : Forall (top_stmt_ok rt mt) p -> forall acc,
+  fst (fold_left (fun a st => collect_stmt (S f) st a) p acc) = fst acc ++ defs_of p.
+Proof.
+  induction 1 as [|st r Hst _ IH]; intros acc; [cbn [fold_left defs_of flat_map]; rewrite app_nil_r; reflexivity|].
+  cbn [fold_left]. rewrite IH. destruct (is_def st) eqn:E.
+  - destruct st; try discriminate. rewrite collect_define. cbn [fst]. unfold defs_of. cbn [flat_map]. rewrite <- app_assoc. reflexivity.
+  - rewrite (proj1 (collect_simpleB rt mt) false false st (top_nondef rt mt st E Hst) (S f) acc).
+    assert (Hd : defs_of (st :: r) = defs_of r) by (unfold defs_of; cbn [flat_map]; destruct st; try discriminate; reflexivity).
+    rewrite Hd. reflexivity.
+Qed.
+
+(* the final statement: the conditions are on the program text alone *)
+Theorem covered_program_runs_as_its_source_says (p : script) (w : world) (fuel : nat) (evs : list event) :
+  Forall (top_stmt_ok (fst (collect p [] [])) (snd (collect p [] []))) p -> NoDup (map fst (defs_of p)) ->
+  run_src fuel p w = SFinished evs ->
+  exists k, run_program k (compile p) w = Finished evs.
+Proof.
+  intros Hall Hnd. apply program_with_routines_runs_as_its_source_says. split; [exact Hall|]. split; [exact Hnd|].
+  exact (collect_defs _ _ p 63 Hall ([], [])).
+Qed.
